@@ -413,7 +413,8 @@ impl<'a, F: IVP> SolOut for DefaultSolOut<'a, F> {
             if let Some(h0) = self.first_step {
                 // First-step enforcement: skip intermediate outputs until we reach/pass
                 // the target, then interpolate to the exact point.
-                if !self.first_output_done && (xold - *x).abs() > self.tol {
+                // (every call but the initial one, which has xold == x exactly: a step may be shorter than `tol`)
+                if !self.first_output_done && xold != *x {
                     let direction = (*x - xold).signum();
                     // The target lies |h0| away from x0 in the direction of integration,
                     // whatever the sign convention used for `first_step`.
